@@ -169,7 +169,7 @@ pub struct ZoneOpts {
 
 pub fn gen_zone(r: &mut Rng, o: ZoneOpts) -> ZoneSpec {
     let ntypes = match r.below(30) {
-        0 if o.allow_huge => 40 + r.usize(160),
+        0 if o.allow_huge => [40 + r.usize(160), 254, 255, 256, 200][r.usize(5)],
         1 | 2 => 1,
         _ => 1 + r.usize(7),
     };
@@ -453,7 +453,7 @@ fn pad(r: &mut Rng, ascii_only: bool) -> String {
 
 // ------------------------------------------------------------------ C20
 
-const REL_NAMES: &[&str] = &["Europe/Paris", "EST5EDT", "UTC0", "<+03>-3", "Zone7", "localtime", "posixrules", "a", "Etc/GMT+5", "CET-1CEST,M3.5.0,M10.5.0/3", "Europe", "UTC", " UTC0 ", "AAA3BBB,J10,J200"];
+const REL_NAMES: &[&str] = &["Europe/Paris", "EST5EDT", "UTC0", "<+03>-3", "Zone7", "localtime", "posixrules", "a", "Etc/GMT+5", "CET-1CEST,M3.5.0,M10.5.0/3", "Europe", "UTC", " UTC0 ", "AAA3BBB,J10,J200", "a/../Zone7", "Europe//Paris", "x:y", "Zone7/", "0zone", "Zo\u{e9}/\u{fc}", "./UTC0", "ABCDEFGHIJKLMNOPQRSTUVWXYZabcdefghijklmnopqrstuvwxyzABCDEFGHIJKLMNOPQRSTUVWXYZabcdefghijklmnopqrstuvwxyzABCDEFGHIJKLMNOPQRSTUVWXYZabcdefghijklmnopqrstuvwxyzABCDEFGHIJKLMNOPQRSTUVWXYZabcdefghijklmnopqrstuvwxyz0123456789/long", "UTC0:", "EST5:30EDT"];
 const ABS_NAMES: &[&str] = &["/abs/zone1", "/etc/localtime", "/usr/share/zoneinfo/Europe/Paris", "/abs/EST5EDT", "/"];
 
 pub fn gen_contents_basic(r: &mut Rng, sc: &mut Scenario, n: usize, allow_invalid: bool) {
@@ -543,17 +543,23 @@ pub fn gen_c20(seed: u64) -> Scenario {
         let mut ops = Vec::new();
         for _ in 0..nops {
             let dirs: Vec<usize> = if r.chance(1, 6) {
-                // a permutation / subset of the directory list
+                // a permutation / subset of the directory list, sometimes with a duplicate
                 let mut d: Vec<usize> = (0..sc.dirs.len()).collect();
                 for i in (1..d.len()).rev() {
                     d.swap(i, r.usize(i + 1));
                 }
                 d.truncate(r.usize(d.len() + 1));
+                if !d.is_empty() && r.chance(1, 4) {
+                    let x = d[r.usize(d.len())];
+                    d.insert(r.usize(d.len() + 1), x);
+                }
                 d
             } else {
                 (0..sc.dirs.len()).collect()
             };
-            if r.chance(1, 12) {
+            if r.chance(1, 40) {
+                ops.push(Op::Construct { kind: if r.chance(1, 4) { "ambient_local".into() } else { "ambient_tz".into() }, args: vec![r.below(1000) as i64] });
+            } else if r.chance(1, 12) {
                 ops.push(Op::ResolveLocal { dirs, slot: r.usize(4) });
             } else {
                 ops.push(Op::Resolve { tz: tz_value(&mut r, &sc), dirs, slot: r.usize(4) });
@@ -647,6 +653,14 @@ pub fn gen_c15(seed: u64) -> Scenario {
     instants.push(0);
     instants.push(1_700_000_000);
     instants.push(r.range(-2_000_000_000, 2_000_000_000));
+    // aliases of one of them: same low bits / same time of day / same place in the 400-year cycle
+    // (what a table with truncated tags or a "same day" memo would confuse)
+    let base = instants[r.usize(instants.len())];
+    for d in [1i64 << 32, -(1i64 << 32), 1 << 16, 1 << 20, 86400, -86400, 86400 * 365, 86400 * 366, 12_622_780_800, -12_622_780_800, 1 << 40, 604_800] {
+        if r.chance(1, 3) {
+            instants.push(base.saturating_add(d));
+        }
+    }
     let mut fields: Vec<Fields> = Vec::new();
     for s in specs.iter().flatten() {
         fields.push(interesting_fields(&mut r, s));
